@@ -183,6 +183,14 @@ def h_setter(ctx, w):
         raw = ctx.octets("raw%d" % k, w + k, mutable=bool(k))
         f.value = raw
         ctx.holds("octet assignment keeps views in step", views_ok(f, from_be(items_of(raw)[:w]), w))
+    # hash follows assignments (also after the field has been hashed once)
+    hval(f)
+    raw2 = ctx.octets("raw_h", w)
+    f.value = raw2
+    ctx.holds("hash follows an octet assignment", hval(f) == hval(UnsignedByteField(from_be(items_of(raw2)), w)))
+    v3 = ctx.int("v3", 0, (1 << (8 * w)) - 1)
+    f.value = v3
+    ctx.holds("hash follows an integer assignment", sym_and(hval(f) == hval(UnsignedByteField(v3, w)), f == UnsignedByteField(v3, w)))
     cur = f.value
     bad = ctx.int("bad", -(1 << 16), (1 << (8 * w)) + (1 << 16))
     ctx.assume(sym_or(bad < 0, bad > (1 << (8 * w)) - 1))
